@@ -108,6 +108,8 @@ TRUSTED = [
 
 
 def write_evidence(prop, tier, seed, level, coverage, wall, violations, assumptions=None):
+    if RUN.get('replay'):
+        return   # a replay re-runs one case; the evidence file describes full runs only
     os.makedirs(f'{ROOT}/evidence', exist_ok=True)
     ev = dict(property_id=prop, tier=tier, seed=seed, level=level, coverage=coverage,
               assumptions=assumptions or [], wall_s=round(wall, 2), violations=violations)
@@ -115,7 +117,12 @@ def write_evidence(prop, tier, seed, level, coverage, wall, violations, assumpti
         json.dump(ev, f, indent=1, sort_keys=True)
 
 
+RUN = {'tier': 'quick', 'seed': 1}   # set by ./check; copied into every replay file
+
+
 def write_replay(prop, name, obj):
+    if isinstance(obj, dict):
+        obj = dict(obj, replay_with=f"./check {prop} --replay <this file>", run=dict(RUN))
     d = f'{ROOT}/replays'
     os.makedirs(d, exist_ok=True)
     p = f'{d}/{prop}_{name}.json'
@@ -132,8 +139,9 @@ class Outcome:
         self.known = []
         # replay files of an earlier run of this property are stale
         import glob
-        for old in glob.glob(f'{ROOT}/replays/{prop}_*.json'):
-            os.remove(old)
+        if not RUN.get('replay'):
+            for old in glob.glob(f'{ROOT}/replays/{prop}_*.json'):
+                os.remove(old)
 
     def violation(self, name, obj, no_input=False):
         p = write_replay(self.prop, name, obj)
